@@ -35,7 +35,8 @@ RULE = ('C01-grammar scripts (1-3 equations, lags/leads <= 3, parameters, errors
         'pre-existing NaN/inf, all error modes, (c) solve() for every start/end choice incl. defaults (model side: the entry-point '
         'model SolveAll.solve_M incl. iter_periods), (d) the Fortran engine (gfortran-compiled) for solve_t at every t in both '
         'spellings and solve(): oracle on all, K on the calls that end before the compiled loop. '
-        'Syntax variants of the documented grammar: X[+1], X[ -1 ], { a }, < e >, keyword-prefixed names (is_open, Pin, not_X), '
+        'Histories: 3-6 solve_t calls with independent options on ONE instance, rejected calls in between, each call judged and '
+        'compared on its own. Syntax variants of the documented grammar: X[+1], X[ -1 ], { a }, < e >, keyword-prefixed names (is_open, Pin, not_X), '
         'comments, multi-line parenthesised statements, np.sqrt (oracle only: outside the translated fragment). model.lags / '
         'model.leads assigned by the user after construction, raised and lowered. thorough adds: '
         'exhaustive space of all programs of <= 2 equations with <= 2 right-hand terms over 4 names and offsets -1..1. '
@@ -327,6 +328,25 @@ def cases_for_program(rng, p, tier, heavy=True):
                 c2 = with_instance_override(rng, c, L, Ld, n)
                 if c2 is not None:
                     cases.append(c2)
+        # (b') a history: several calls on ONE instance, rejected ones in between (state must not leak between calls)
+        if heavy:
+            h = base_case(p, n, data, 'history', 0)
+            h['steps'] = []
+            for _ in range(rng.choice([3, 4, 5, 6])):
+                t = rng.randrange(-n, n)
+                pp = t if t >= 0 else t + n
+                so = dict(h['opts'], max_iter=rng.choice([1, 2, 3]), failures='ignore',
+                          errors=rng.choice(['raise', 'raise', 'skip', 'ignore', 'replace']), catch_first_error=rng.random() < 0.6)
+                u = rng.random()
+                if u < 0.2:
+                    so['offset'] = rng.choice([-1, 1, -pp - 1, n - pp])
+                elif u < 0.3:
+                    so['min_iter'] = so['max_iter'] + 1
+                    so['offset'] = rng.choice([0, -1, 1])
+                elif u < 0.4:
+                    so['failures'] = 'raise'
+                h['steps'].append({'t': t, 'opts': so})
+            cases.append(h)
         # (c) solve() for every start / end choice
         choices = [None] + list(range(n))
         pairs = list(itertools.product(choices, choices))
@@ -477,7 +497,7 @@ def fixed_cases():
 
 def gen(rng, tier):
     cases = fixed_cases()
-    nprog = 40 if tier == 'quick' else 180
+    nprog = 36 if tier == 'quick' else 170
     for _ in range(nprog):
         cases += cases_for_program(rng, gen_prog(rng), tier)
     if tier == 'thorough':
@@ -584,6 +604,28 @@ def impl(case):
     m.__dict__['_c04'] = st
     before = em.snapshot(m, names)
     em.install_recorders(m, names + ['status', 'iterations'], st['log'])
+    if case['entry'] == 'history':
+        # several calls on ONE instance (rejected ones in between): every call is observed and judged on its own
+        steps = []
+        for step in case['steps']:
+            del st['log'][:]
+            st['events'] = []
+            st['passes'] = []
+            so = step['opts']
+            status0 = [str(x) for x in np.asarray(m.__dict__['_status'])]
+            iters0 = [int(x) for x in np.asarray(m.__dict__['_iterations'])]
+            before = em.snapshot(m, names)
+            try:
+                out = ['ret', [bool(m.solve_t(step['t'], min_iter=so['min_iter'], max_iter=so['max_iter'], tol=lib.unhex(so['tol']),
+                                              offset=so['offset'], failures=so['failures'], errors=so['errors'],
+                                              catch_first_error=so['catch_first_error']))]]
+            except Exception as e:
+                c = e.__cause__
+                out = ['raise', type(e).__name__, type(c).__name__ if c is not None else None]
+            ob = _collect(m, Model, names, prog, untranslatable, st, before, out)
+            ob['status0'], ob['iters0'] = status0, iters0
+            steps.append(ob)
+        return {'history': steps, 'names': names}
     o = case['opts']
     kw = dict(min_iter=o['min_iter'], max_iter=o['max_iter'], tol=lib.unhex(o['tol']), offset=o['offset'],
               failures=o['failures'], errors=o['errors'], catch_first_error=o['catch_first_error'])
@@ -606,6 +648,12 @@ def impl(case):
     except Exception as e:
         c = e.__cause__
         out = ['raise', type(e).__name__, type(c).__name__ if c is not None else None]
+    return _collect(m, Model, names, prog, untranslatable, st, before, out)
+
+
+def _collect(m, Model, names, prog, untranslatable, st, before, out):
+    """canonical observation of one call (python engine)"""
+    import numpy as np
     idx = {nm: i for i, nm in enumerate(names)}
     idx.update({'status': -1, 'iterations': -2})
 
@@ -629,7 +677,7 @@ def impl(case):
         'endo': [idx[x] for x in m.endogenous], 'check': [idx[x] for x in m.check],
         'prog': prog, 'untranslatable': untranslatable, 'out': out, 'before': before, 'after': em.snapshot(m, names),
         'status': [str(x) for x in np.asarray(m.__dict__['_status'])], 'iters': [int(x) for x in np.asarray(m.__dict__['_iterations'])],
-        'log': canon(st['log']), 'events': st['events'], 'passes': passes, 'npasses': len(st['passes']),
+        'log': canon(st['log']), 'events': list(st['events']), 'passes': passes, 'npasses': len(st['passes']),
         'table_all': table_all, 'table_complete': (not needs_table) or len(st['passes']) <= MAX_PASSES_TABLE,
         'pass_ts': [[r['t'], len(r['log'])] for r in st['passes']],
         'pass_logs_tail': [dict(t=r['t'], log=canon(r['log'])) for r in st['passes'][MAX_PASSES_K:]],
@@ -660,6 +708,15 @@ def _c_out(out):
 def _c_desc(obs):
     return '(mkDesc %s %s %d%%nat %d%%nat)' % (lib.clist('%d%%nat' % i for i in obs['check']), lib.clist('%d%%nat' % i for i in obs['endo']),
                                              obs['lags'], obs['leads'])
+
+
+def history_steps(case, obs):
+    """the calls of a history as (solve_t case, observation) pairs: the state the previous call left is the input"""
+    out = []
+    for step, so in zip(case['steps'], obs['history']):
+        sc_ = dict(case, entry='solve_t', t=step['t'], opts=step['opts'], status0=so['status0'], iters0=so['iters0'])
+        out.append((sc_, so))
+    return out
 
 
 def k_items(case, obs):
@@ -757,6 +814,14 @@ def correspond(cases, obs, tag, tier):
                 items.append('(K2 %s)' % k_item_fortran(c, o))
                 owner.append(i)
             continue
+        if c['entry'] == 'history':
+            for sc_, so_ in history_steps(c, o):
+                if so_.get('prog') is None or guard(sc_, so_):
+                    continue
+                for it in (k_items(sc_, so_) or []):
+                    items.append(it)
+                    owner.append(i)
+            continue
         if o.get('prog') is None:        # outside the translated fragment: oracle only
             continue
         its = k_items(c, o)
@@ -773,6 +838,8 @@ def correspond(cases, obs, tag, tier):
 def explain(case, obs):
     if obs.get('skip'):
         return 'skipped: ' + obs['skip']
+    if case['entry'] == 'history':
+        return '\n'.join('step %d: %s' % (j, explain(sc_, so_)[-800:]) for j, (sc_, so_) in enumerate(history_steps(case, obs)))
     if obs.get('engine') == 'fortran' and case['entry'] == 'evaluate':
         return 'Fortran engine, _evaluate: model Fortran/FSolve.w_evaluate answers IndexError with nothing changed iff t is outside the span or leaves no room for the lags / leads (theorem C04_fortran_evaluate_infeasible_rejected)'
     if obs.get('engine') == 'fortran':
@@ -812,6 +879,8 @@ def guard(case, obs):
     """guard class of kept finding #3 (offset copy before the pre-existing non-finite rejection): K is silent there"""
     if obs.get('skip') or case['entry'] == 'evaluate':
         return False
+    if case['entry'] == 'history':
+        return False                 # decided per step inside correspond()
     if obs.get('engine') != 'fortran' and (obs['lags'] < obs['class_lags'] or obs['leads'] < obs['class_leads']):
         # third kept finding: instance attribute lowered below what the equations need (outside the hypothesis
         # prog_lags <= lags d of every theorem: hyp_ok fails by construction)
@@ -837,6 +906,14 @@ def oracle(case, obs):
     if obs.get('skip'):
         if obs['skip'].startswith('build:'):
             bad('build|' + obs['skip'][6:], 'a valid C01-grammar script was not accepted: %s' % obs['skip'])
+        return fails
+    if case['entry'] == 'history':
+        seen = set()
+        for j, (sc_, so_) in enumerate(history_steps(case, obs)):
+            for f in oracle(sc_, so_):
+                if f['sig'] not in seen:
+                    seen.add(f['sig'])
+                    fails.append({'sig': f['sig'], 'what': 'call %d of the history (solve_t(%d)): %s' % (j + 1, sc_['t'], f['what'])})
         return fails
     n, o, eqs = case['n'], case['opts'], case['eqs']
     names = obs['names']
@@ -1044,6 +1121,8 @@ def oracle(case, obs):
 def nontrivial(case, obs):
     if obs.get('skip') or obs.get('timeout'):
         return False
+    if case['entry'] == 'history':
+        return any(nontrivial(sc_, so_) for sc_, so_ in history_steps(case, obs))
     return obs['npasses'] >= 1 or obs['out'][0] == 'raise' or (obs.get('engine') == 'fortran' and obs['before'] != obs['after'])
 
 
@@ -1052,6 +1131,8 @@ def bucket(case, obs):
         return 'timeout'
     if obs.get('skip'):
         return 'skip/' + obs['skip'].split(':')[0]
+    if case['entry'] == 'history':
+        return 'history/%d calls/%d raised' % (len(obs['history']), sum(1 for so_ in obs['history'] if so_['out'][0] == 'raise'))
     out = obs['out']
     r = out[1] if out[0] == 'raise' else 'ret'
     extra = ''
@@ -1068,6 +1149,13 @@ def bucket(case, obs):
 
 
 def shrink_candidates(case):
+    if case['entry'] == 'history':
+        for j in range(len(case['steps'])):
+            if len(case['steps']) > 1:
+                c = copy.deepcopy(case)
+                del c['steps'][j]
+                yield c
+        return
     if case['opts']['offset'] and case['entry'] != 'solve_t':
         c = copy.deepcopy(case)
         c['opts']['offset'] = 0
